@@ -52,7 +52,7 @@ CertP make_cert(const CertSpec &spec, const Cert *issuer)
     CertP c = std::make_shared<Cert>();
     c->spec = spec;
     c->issuer = issuer;
-    EVP_PKEY *pkey = EVP_EC_gen("P-256");
+    EVP_PKEY *pkey = spec.rsa ? EVP_RSA_gen(2048) : EVP_EC_gen("P-256");
     if (!pkey) die("EVP_EC_gen");
     X509 *x = X509_new();
     X509_set_version(x, 2);
